@@ -459,3 +459,47 @@ Proof.
   exists b'. split; [exact H1|]. split; [exact H2|]. split; [exact H3|].
   intros m Hm. exact (bv_get_spec b' m H2 Hm).
 Qed.
+
+(* ------------------------------------------------------------------------------------------ *)
+(** * All operation sequences: the bit-vector refines a set of natural numbers *)
+
+(** what a sequence of outputs must be, for the set [f] (as a characteristic function) *)
+Fixpoint set_ok (f : Z -> bool) (h : list (Z * Z * Z)) (outs : list (Z * Z * Z * Z)) : Prop :=
+  match h, outs with
+  | [], [] => True
+  | (k, n, v) :: h', (r, _, _, _) :: o' =>
+      if k =? 0 then r = SUCCEED /\ set_ok (fun m => if m =? n then v =? BV_TRUE else f m) h' o'
+      else if k =? 1 then r = (if f n then BV_TRUE else BV_FALSE) /\ set_ok f h' o'
+      else (0 <= r /\ f r = false /\ forall m, 0 <= m < r -> f m = true) /\ set_ok f h' o'
+  | _, _ => False
+  end.
+
+Definition op_ok (o : Z * Z * Z) : Prop :=
+  let '(k, n, v) := o in
+  (k = 0 -> 0 <= n /\ (v = BV_TRUE \/ v = BV_FALSE)) /\ (k = 1 -> 0 <= n).
+
+Lemma bv_seq_refines_set_lemma : forall h b f, bv_wf b -> (forall m, 0 <= m -> bv_bit b m = f m) ->
+  Forall op_ok h -> set_ok f h (bv_run b h).
+Proof.
+  induction h as [|[[k n] v] h IH]; intros b f W Hf Hok; [exact I|].
+  inversion Hok as [|x l Hop Hrest]; subst. unfold op_ok in Hop. destruct Hop as [Hk0 Hk1]. cbn [bv_run bv_step set_ok].
+  destruct (Z.eqb_spec k 0) as [->|Hn0]; [|destruct (Z.eqb_spec k 1) as [->|Hn1]].
+  - destruct (Hk0 eq_refl) as [Hn Hv].
+    destruct (bv_set_spec b n v W Hn Hv) as (b' & Es & W' & Hb' & _). rewrite Es. cbn [set_ok Z.eqb].
+    split; [reflexivity|]. apply IH; auto. intros m Hm. rewrite Hb' by auto. destruct (m =? n); auto.
+  - cbn [set_ok]. change (1 =? 0) with false. change (1 =? 1) with true. cbv iota.
+    split; [rewrite (bv_get_spec b n W (Hk1 eq_refl)), Hf by (apply Hk1; reflexivity); reflexivity|]. apply IH; auto.
+  - destruct (bv_find_next_zero_spec b W) as (b' & r & Ez & W' & Hsame & Hr0 & Hclr & Hlow). rewrite Ez.
+    cbn [set_ok]. destruct (Z.eqb_spec k 0); [contradiction|]. destruct (Z.eqb_spec k 1); [contradiction|].
+    split.
+    + split; [exact Hr0|]. split; [rewrite <- Hf by auto; exact Hclr|]. intros m Hm. rewrite <- Hf by lia. apply Hlow. exact Hm.
+    + apply IH; auto. intros m Hm. rewrite Hsame by auto. apply Hf. exact Hm.
+Qed.
+
+(** from bv_new: every sequence of bv_set / bv_get / bv_find_next_zero behaves as the empty set updated by the sets *)
+Lemma bv_new_seq_refines_set_lemma : forall nb h outs, Forall op_ok h -> bv_run_new nb h = Some outs ->
+  set_ok (fun _ => false) h outs.
+Proof.
+  intros nb h outs Hok H. unfold bv_run_new in H. destruct (bv_new nb) as [b|] eqn:E; [|discriminate].
+  injection H as <-. destruct (bv_new_wf nb b E) as [W Hclr]. apply bv_seq_refines_set_lemma; auto.
+Qed.
